@@ -294,11 +294,14 @@ Section Alphabet.
     | PNew _ => true
     | PLop o => if N.eqb (lgroup o) g then safe t o else true
     end.
-  Definition good (g : N) (t : pstate) : bool :=
-    forallb (fun o => implb (N.eqb (lgroup o) g && ptab_exists t (ltable o) && safe t o) (expect t o (pout t o))) lops.
+  Definition ops_of (g : N) : list lop := filter (fun o => N.eqb (lgroup o) g) lops.
+  Definition good_on (ops : list lop) (t : pstate) : bool :=
+    forallb (fun o => implb (ptab_exists t (ltable o) && safe t o) (expect t o (pout t o))) ops.
+  Definition good (g : N) (t : pstate) : bool := good_on (ops_of g) t.
 
   Definition check_group (g : N) : bool :=
-    check pstate pact pstate_eqb hash_p (pnext g) (allowed g) (good g) (R g) (proj g init_state) (acts g).
+    let ops := ops_of g in
+    check pstate pact pstate_eqb hash_p (pnext g) (allowed g) (good_on ops) (R g) (proj g init_state) (acts g).
   Hypothesis CHK : forall g, In g all_groups -> check_group g = true.
   (* operations of the alphabet act on known groups *)
   Hypothesis GRP : forallb (fun o => existsb (N.eqb (lgroup o)) all_groups) lops = true.
@@ -339,8 +342,11 @@ Section Alphabet.
     pose proof (lgroup_known o I) as Hg.
     pose proof (inv_good pstate pact pstate_eqb pstate_eqb_eq hash_p (pnext (lgroup o)) (allowed (lgroup o))
                   (good (lgroup o)) (R (lgroup o)) _ _ (CHK _ Hg) _ (G _ Hg)) as Gd.
-    unfold good in Gd. rewrite forallb_forall in Gd. specialize (Gd o (lop_in_In o I)).
-    rewrite N.eqb_refl, exists_proj, E in Gd. unfold safe_at in S. rewrite S in Gd. simpl in Gd. exact Gd.
+    unfold good, good_on in Gd. rewrite forallb_forall in Gd.
+    assert (Io : In o (ops_of (lgroup o))).
+    { unfold ops_of. apply filter_In. split; [apply lop_in_In; exact I|apply N.eqb_refl]. }
+    specialize (Gd o Io).
+    rewrite exists_proj, E in Gd. unfold safe_at in S. rewrite S in Gd. simpl in Gd. exact Gd.
   Qed.
 
   Lemma new_good : forall s T, Good s -> In T news -> exists_tab s T = false ->
